@@ -1124,8 +1124,9 @@ class Payload(object):
         if not isinstance(method, utils.STRING_TYPES):
             raise ValueError("Method name must be a string.")
 
-        if not self.id:
+        if self.id is None or self.id == "":
             # Generate a request ID
+            # (don't use 'not id': 0 is a valid request ID)
             self.id = str(uuid.uuid4())
 
         request = {"id": self.id, "method": method}
